@@ -899,4 +899,256 @@ theorem lhsSelected_ok (isWs : Char → Bool) (text code : Bool) (src : List Cha
           have := lhsSelected_lower isWs text code rest st' p hp
           simp; omega
 
+
+/-! ## JavaDoc block tags -/
+
+/-- the block-tag loop as a left-to-right scan of the current list: the window slides by one
+token; after a match the next three windows start with an Unlintable token -/
+def jdScan : List Tok → List Tok
+  | a :: b :: c :: d :: tl =>
+    if tagWindow a b c d then unl a :: jdScan (unl b :: unl c :: unl d :: tl)
+    else a :: jdScan (b :: c :: d :: tl)
+  | l => l
+termination_by l => l.length
+
+theorem jdScan_short {l : List Tok} (h : l.length < 4) : jdScan l = l := by
+  match l, h with
+  | [], _ => simp [jdScan]
+  | [_], _ => simp [jdScan]
+  | [_, _], _ => simp [jdScan]
+  | [_, _, _], _ => simp [jdScan]
+
+/-- the index loop of the model is that scan; in particular it never indexes out of bounds -/
+theorem jdLoop_eq : ∀ (n : Nat) (pre rest : List Tok), rest.length - 3 = n →
+    jdLoop n pre.length (pre ++ rest) = .ok (pre ++ jdScan rest) := by
+  intro n
+  induction n with
+  | zero =>
+    intro pre rest h
+    rw [jdScan_short (by omega)]
+    rfl
+  | succ n ih =>
+    intro pre rest h
+    match rest, h with
+    | a :: b :: c :: d :: tl, h =>
+      have h0 : (pre ++ a :: b :: c :: d :: tl)[pre.length]? = some a := by
+        rw [List.getElem?_append_right (Nat.le_refl _)]; simp
+      have h1 : (pre ++ a :: b :: c :: d :: tl)[pre.length + 1]? = some b := by
+        rw [List.getElem?_append_right (by omega)]; simp
+      have h2 : (pre ++ a :: b :: c :: d :: tl)[pre.length + 2]? = some c := by
+        rw [List.getElem?_append_right (by omega)]; simp
+      have h3 : (pre ++ a :: b :: c :: d :: tl)[pre.length + 3]? = some d := by
+        rw [List.getElem?_append_right (by omega)]; simp
+      simp only [jdLoop, h0, h1, h2, h3]
+      have hlen : tl.length = n := by simp at h; omega
+      by_cases hw : tagWindow a b c d = true
+      · rw [if_pos hw]
+        have hcur : (pre ++ a :: b :: c :: d :: tl).take pre.length ++ [unl a, unl b, unl c, unl d] ++
+            (pre ++ a :: b :: c :: d :: tl).drop (pre.length + 4) =
+            (pre ++ [unl a]) ++ (unl b :: unl c :: unl d :: tl) := by
+          rw [List.take_left]
+          have : (pre ++ a :: b :: c :: d :: tl).drop (pre.length + 4) = tl := by
+            rw [← List.drop_drop, List.drop_left]; rfl
+          rw [this]; simp
+        rw [hcur]
+        have := ih (pre ++ [unl a]) (unl b :: unl c :: unl d :: tl) (by simp; omega)
+        simp only [List.length_append, List.length_cons, List.length_nil] at this
+        rw [this, jdScan, if_pos hw]
+        simp
+      · rw [if_neg hw]
+        have : pre ++ a :: b :: c :: d :: tl = (pre ++ [a]) ++ (b :: c :: d :: tl) := by simp
+        rw [this]
+        have := ih (pre ++ [a]) (b :: c :: d :: tl) (by simp; omega)
+        simp only [List.length_append, List.length_cons, List.length_nil] at this
+        rw [this]
+        conv => rhs; rw [jdScan, if_neg hw]
+        simp
+
+theorem javadocMark_eq (toks : List Tok) : javadocMark toks = .ok (jdScan toks) := by
+  have := jdLoop_eq (toks.length - 3) [] toks rfl
+  simpa [javadocMark] using this
+
+theorem unl_unl (t : Tok) : unl (unl t) = unl t := rfl
+
+theorem tagWindow_not_unl (a b c d : Tok) : tagWindow (unl a) b c d = false := by
+  simp [tagWindow, unl, isAtKind]
+
+/-- a `@tag argument` window starts at index `j` of `l` -/
+def WindowAt (l : List Tok) (j : Nat) : Prop :=
+  ∃ a b c d tl, l.drop j = a :: b :: c :: d :: tl ∧ tagWindow a b c d = true
+
+/-- every token is kept or made Unlintable; nothing is added, dropped or moved -/
+theorem jdScan_get : ∀ (n : Nat) (l : List Tok), l.length = n → ∀ (k : Nat),
+    (jdScan l)[k]? = l[k]? ∨ (jdScan l)[k]? = (l[k]?).map unl := by
+  intro n
+  induction n using Nat.strongRecOn with
+  | _ n ih =>
+    intro l hl k
+    match l, hl with
+    | a :: b :: c :: d :: tl, hl =>
+      rw [jdScan]
+      by_cases hw : tagWindow a b c d = true
+      · rw [if_pos hw]
+        cases k with
+        | zero => right; simp
+        | succ k =>
+          have := ih (tl.length + 3) (by simp at hl; omega) (unl b :: unl c :: unl d :: tl) (by simp) k
+          simp only [List.getElem?_cons_succ]
+          match k with
+          | 0 => right; rcases this with h | h <;> simpa [unl_unl] using h
+          | 1 => right; rcases this with h | h <;> simpa [unl_unl] using h
+          | 2 => right; rcases this with h | h <;> simpa [unl_unl] using h
+          | k + 3 => simpa using this
+      · rw [if_neg hw]
+        cases k with
+        | zero => left; simp
+        | succ k =>
+          have := ih (tl.length + 3) (by simp at hl; omega) (b :: c :: d :: tl) (by simp) k
+          simpa using this
+    | [], _ => left; rw [jdScan_short (by simp)]
+    | [_], _ => left; rw [jdScan_short (by simp)]
+    | [_, _], _ => left; rw [jdScan_short (by simp)]
+    | [_, _, _], _ => left; rw [jdScan_short (by simp)]
+
+theorem jdScan_length (l : List Tok) : (jdScan l).length = l.length := by
+  -- from `jdScan_get`: both lists are defined at exactly the same indices
+  apply Nat.le_antisymm
+  · apply Nat.le_of_not_lt
+    intro h
+    rcases jdScan_get l.length l rfl l.length with h' | h'
+    · rw [List.getElem?_eq_none (Nat.le_refl _)] at h'
+      exact absurd (List.getElem?_eq_none_iff.mp h') (by omega)
+    · rw [List.getElem?_eq_none (Nat.le_refl _)] at h'
+      exact absurd (List.getElem?_eq_none_iff.mp h') (by simp; omega)
+  · apply Nat.le_of_not_lt
+    intro h
+    rcases jdScan_get l.length l rfl (jdScan l).length with h' | h'
+    · rw [List.getElem?_eq_none (Nat.le_refl _)] at h'
+      exact absurd (List.getElem?_eq_none_iff.mp h'.symm) (by omega)
+    · rw [List.getElem?_eq_none (Nat.le_refl _)] at h'
+      have := h'.symm
+      simp at this
+      omega
+
+
+theorem not_at_of_word {k : Kind} (h : k.isWord = true) : isAtKind k = false := by
+  cases k <;> simp_all [Kind.isWord, isAtKind]
+
+theorem not_at_of_space {k : Kind} (h : k.isSpace = true) : isAtKind k = false := by
+  cases k <;> simp_all [Kind.isSpace, isAtKind]
+
+theorem tagWindow_parts {a b c d : Tok} (h : tagWindow a b c d = true) :
+    isAtKind a.kind = true ∧ b.kind.isWord = true ∧ c.kind.isSpace = true ∧ d.kind.isWord = true := by
+  simpa [tagWindow, Bool.and_eq_true, and_assoc] using h
+
+theorem tagWindow_first {a b c d : Tok} (h : tagWindow a b c d = true) : isAtKind a.kind = true :=
+  (tagWindow_parts h).1
+
+theorem WindowAt.length_le {l : List Tok} {j : Nat} (h : WindowAt l j) : j + 4 ≤ l.length := by
+  obtain ⟨a, b, c, d, tl, hd, _⟩ := h
+  have := congrArg List.length hd
+  simp at this
+  omega
+
+/-- every window of the ORIGINAL list — the last one included — ends up Unlintable -/
+theorem jdScan_window : ∀ (n : Nat) (l : List Tok), l.length = n → ∀ (j : Nat), WindowAt l j →
+    ∀ (k : Nat), k < 4 → (jdScan l)[j + k]? = (l[j + k]?).map unl := by
+  intro n
+  induction n using Nat.strongRecOn with
+  | _ n ih =>
+    intro l hl j hj k hk
+    have hjl := hj.length_le
+    match l, hl, hj, hjl with
+    | a :: b :: c :: d :: tl, hl, hj, _ =>
+      rw [jdScan]
+      by_cases hw : tagWindow a b c d = true
+      · rw [if_pos hw]
+        obtain ⟨_, hb, hc, hd⟩ := tagWindow_parts hw
+        obtain ⟨a', b', c', d', tl', hdrop, hw'⟩ := hj
+        have hfirst := tagWindow_first hw'
+        match j, hdrop with
+        | 0, _ =>
+          have hget := jdScan_get _ (unl b :: unl c :: unl d :: tl) rfl
+          match k, hk with
+          | 0, _ => simp
+          | 1, _ => rcases hget 0 with h | h <;> simpa [unl_unl] using h
+          | 2, _ => rcases hget 1 with h | h <;> simpa [unl_unl] using h
+          | 3, _ => rcases hget 2 with h | h <;> simpa [unl_unl] using h
+        | 1, hdrop =>
+          simp at hdrop
+          rw [← hdrop.1, not_at_of_word hb] at hfirst; cases hfirst
+        | 2, hdrop =>
+          simp at hdrop
+          rw [← hdrop.1, not_at_of_space hc] at hfirst; cases hfirst
+        | 3, hdrop =>
+          simp at hdrop
+          rw [← hdrop.1, not_at_of_word hd] at hfirst; cases hfirst
+        | j' + 4, hdrop =>
+          have hw2 : WindowAt (unl b :: unl c :: unl d :: tl) (j' + 3) :=
+            ⟨a', b', c', d', tl', by simpa using hdrop, hw'⟩
+          have := ih (tl.length + 3) (by simp at hl; omega) (unl b :: unl c :: unl d :: tl) (by simp)
+            (j' + 3) hw2 k hk
+          have e1 : j' + 4 + k = (j' + 3 + k) + 1 := by omega
+          rw [e1, List.getElem?_cons_succ, this]
+          have e2 : j' + 3 + k = (j' + k) + 3 := by omega
+          simp [e2]
+      · rw [if_neg hw]
+        obtain ⟨a', b', c', d', tl', hdrop, hw'⟩ := hj
+        match j, hdrop with
+        | 0, hdrop =>
+          simp at hdrop
+          obtain ⟨rfl, rfl, rfl, rfl, _⟩ := hdrop
+          exact absurd hw' hw
+        | j' + 1, hdrop =>
+          have hw2 : WindowAt (b :: c :: d :: tl) j' := ⟨a', b', c', d', tl', by simpa using hdrop, hw'⟩
+          have := ih (tl.length + 3) (by simp at hl; omega) (b :: c :: d :: tl) (by simp) j' hw2 k hk
+          have e1 : j' + 1 + k = (j' + k) + 1 := by omega
+          rw [e1, List.getElem?_cons_succ, this]
+          simp
+    | [], _, _, h => simp at h
+    | [_], _, _, h => simp at h
+    | [_, _], _, _, h => simp at h
+    | [_, _, _], _, _, h => simp at h
+
+/-- … and nothing else changes: a token that differs from the original lies in such a window -/
+theorem jdScan_unchanged : ∀ (n : Nat) (l : List Tok), l.length = n → ∀ (k : Nat),
+    (jdScan l)[k]? ≠ l[k]? → ∃ j, j ≤ k ∧ k < j + 4 ∧ WindowAt l j := by
+  intro n
+  induction n using Nat.strongRecOn with
+  | _ n ih =>
+    intro l hl k hne
+    match l, hl with
+    | a :: b :: c :: d :: tl, hl =>
+      rw [jdScan] at hne
+      by_cases hw : tagWindow a b c d = true
+      · rw [if_pos hw] at hne
+        have h0 : WindowAt (a :: b :: c :: d :: tl) 0 := ⟨a, b, c, d, tl, rfl, hw⟩
+        by_cases hk : k < 4
+        · exact ⟨0, Nat.zero_le _, by omega, h0⟩
+        · obtain ⟨k', rfl⟩ : ∃ k', k = k' + 4 := ⟨k - 4, by omega⟩
+          have hne' : (jdScan (unl b :: unl c :: unl d :: tl))[k' + 3]? ≠
+              (unl b :: unl c :: unl d :: tl)[k' + 3]? := by
+            simpa using hne
+          obtain ⟨j', hj1, hj2, hj3⟩ := ih (tl.length + 3) (by simp at hl; omega)
+            (unl b :: unl c :: unl d :: tl) (by simp) (k' + 3) hne'
+          obtain ⟨a', b', c', d', tl', hdrop, hw'⟩ := hj3
+          have hfirst := tagWindow_first hw'
+          match j', hdrop with
+          | 0, hdrop => simp at hdrop; rw [← hdrop.1] at hfirst; simp [unl, isAtKind] at hfirst
+          | 1, hdrop => simp at hdrop; rw [← hdrop.1] at hfirst; simp [unl, isAtKind] at hfirst
+          | 2, hdrop => simp at hdrop; rw [← hdrop.1] at hfirst; simp [unl, isAtKind] at hfirst
+          | j'' + 3, hdrop =>
+            exact ⟨j'' + 4, by omega, by omega, a', b', c', d', tl', by simpa using hdrop, hw'⟩
+      · rw [if_neg hw] at hne
+        match k, hne with
+        | 0, hne => simp at hne
+        | k' + 1, hne =>
+          obtain ⟨j', hj1, hj2, a', b', c', d', tl', hdrop, hw'⟩ :=
+            ih (tl.length + 3) (by simp at hl; omega) (b :: c :: d :: tl) (by simp) k' (by simpa using hne)
+          exact ⟨j' + 1, by omega, by omega, a', b', c', d', tl', by simpa using hdrop, hw'⟩
+    | [], _ => rw [jdScan_short (by simp)] at hne; exact absurd rfl hne
+    | [_], _ => rw [jdScan_short (by simp)] at hne; exact absurd rfl hne
+    | [_, _], _ => rw [jdScan_short (by simp)] at hne; exact absurd rfl hne
+    | [_, _, _], _ => rw [jdScan_short (by simp)] at hne; exact absurd rfl hne
+
 end Harper
